@@ -9,5 +9,7 @@ start=$(date +%s)
 ./check "$prop" "$tier" > /tmp/try_mutant.out 2>&1; rc=$?
 end=$(date +%s)
 git -C /repo checkout -- . 
+# rebuild against the restored tree so that no later command uses a binary built from the change
+(cd /verif/sim && cargo build --offline --release >/dev/null 2>&1; cargo build --offline --profile relcheck >/dev/null 2>&1)
 grep -E "^VIOLATION|^KNOWN|HARNESS" /tmp/try_mutant.out | cut -c1-420 | head -6
 echo "RESULT prop=$prop patch=$patch exit=$rc secs=$((end-start))"
